@@ -36,7 +36,7 @@ GATES = {
     "add-case-split-small-curves": ["small:" + c for c in ADD_CLASSES],
     "add-case-split-secp256k1": ["s256:add:inf+Q", "s256:add:P+inf", "s256:add:opposite", "s256:add:distinct", "s256:add:doubling"],
     "field-axioms": ["field:assoc", "field:distrib", "field:inverse", "field:pow", "field:div"],
-    "scalar-classes": ["scalar:0", "scalar:n", "scalar:n+1", "scalar:negative", "scalar:>2^256", "scalar:random"],
+    "scalar-classes": ["scalar:0", "scalar:n", "scalar:n+1", "scalar:negative", "scalar:>2^256", "scalar:random", "scalar-on:negated-point-and-infinity"],
     "identities": ["ident:(a+b)G", "ident:a(bG)", "ident:nP", "ident:P+(-P)", "ident:P+P", "ident:P+int"],
     "encodings-both-parities": ["sec:even-y", "sec:odd-y", "sec:uncompressed"],
     "reject-classes": ["reject:" + c for c in REJECT_CLASSES],
@@ -402,6 +402,11 @@ def s256_work(ctx, rng, idx, n, rounds):
             ctx.count(cls)
             outcome(lambda: k * G)
             outcome(lambda: k * base)
+            # the same scalar on the opposite point (same x, other parity) and on the point at infinity:
+            # results are functions of (k, point), whatever was multiplied before in this process
+            outcome(lambda: k * (-1 * base))
+            outcome(lambda: k * inf)
+            ctx.count("scalar-on:negated-point-and-infinity")
         a, b = rand_secret(rng), rand_secret(rng)
         A, B = lib_pt(a), lib_pt(b)
         ident = [
